@@ -74,9 +74,9 @@ def mpz_cdiv_r_ui_d0 (n d : Int) : Int := -(Int.fmod (-n) d)
 def mpz_cdiv_r_ui_ret (n d : Int) : Int := iabs (Int.fmod (-n) d)
 def mpz_cdiv_ui (n d : Int) : Int := iabs (Int.fmod (-n) d)
 /-- `mpz_mod`: the sign of the divisor is ignored, the result is non-negative -/
-def mpz_mod (n d : Int) : Int := Int.emod n d
-def mpz_mod_ui_d0 (n d : Int) : Int := Int.emod n d
-def mpz_mod_ui_ret (n d : Int) : Int := Int.emod n d
+def mpz_mod (n d : Int) : Int := n % d
+def mpz_mod_ui_d0 (n d : Int) : Int := n % d
+def mpz_mod_ui_ret (n d : Int) : Int := n % d
 /-- `mpz_divexact`: only specified when `d ∣ n` -/
 def mpz_divexact (n d : Int) : Int := Int.tdiv n d
 def mpz_divexact_ui (n d : Int) : Int := Int.tdiv n d
@@ -115,7 +115,7 @@ def mpz_gcdext_d2 (a b : Int) : Int := (if b < 0 then -1 else 1) * (xgcd a.natAb
 /-- `mpz_invert`: non-zero return and the inverse in `[0,|m|)` when it exists -/
 def mpz_invert_ret (a m : Int) : Int := if Int.gcd a m = 1 ∧ m ≠ 0 then 1 else 0
 def mpz_invert_d0 (a m : Int) : Int :=
-  if Int.gcd a m = 1 ∧ m ≠ 0 then Int.emod ((xgcd a.natAbs m.natAbs).2.1 * (if a < 0 then -1 else 1)) m else 0
+  if Int.gcd a m = 1 ∧ m ≠ 0 then (((xgcd a.natAbs m.natAbs).2.1 * (if a < 0 then -1 else 1)) % m) else 0
 
 def mpz_pow_ui (b e : Int) : Int := b ^ e.toNat
 def mpz_ui_pow_ui (b e : Int) : Int := b ^ e.toNat
@@ -130,8 +130,8 @@ def powModNat (b : Nat) (e : Nat) (m : Nat) : Nat :=
 decreasing_by omega
 
 /-- `mpz_powm` for a non-negative exponent: result in `[0, |m|)` -/
-def mpz_powm (b e m : Int) : Int := (powModNat (Int.emod b m).toNat e.toNat m.natAbs : Int)
-def mpz_powm_ui (b e m : Int) : Int := (powModNat (Int.emod b m).toNat e.toNat m.natAbs : Int)
+def mpz_powm (b e m : Int) : Int := (powModNat (b % m).toNat e.toNat m.natAbs : Int)
+def mpz_powm_ui (b e m : Int) : Int := (powModNat (b % m).toNat e.toNat m.natAbs : Int)
 
 def mpz_sqrt (a : Int) : Int := (Nat.sqrt a.toNat : Int)
 def mpz_sqrtrem_d0 (a : Int) : Int := (Nat.sqrt a.toNat : Int)
@@ -156,10 +156,6 @@ def mpz_get_si (a : Int) : Int :=
   else if a < 0 then -1 - (((-a) % 18446744073709551616 - 1) % 9223372036854775808)
   else 0
 def mpz_size (a : Int) : Int := if a = 0 then 0 else (limbsM1 a : Int) + 1
-/-- number of digits of `n` in base `b ≥ 2` (fuel-bounded; 1 for 0) -/
-def ndigits (b : Nat) : Nat → Nat → Nat
-  | 0, _ => 1
-  | fuel+1, n => if n < b ∨ b < 2 then 1 else ndigits b fuel (n / b) + 1
 /-- `mpz_sizeinbase`: exact for base 2 (GMP: exact for powers of two, else possibly one too big) -/
 def mpz_sizeinbase (a b : Int) : Int := (ndigits b.toNat a.natAbs a.natAbs : Nat)
 def mpz_tstbit (a k : Int) : Int := (a / 2 ^ k.toNat) % 2
